@@ -48,6 +48,7 @@ def gen_case(rng, supervised):
     prior = gen.grid(A.T.dot(A) + np.eye(d), bits=5)
   else:
     prior = prior_kind
+  prior_arg = prior.copy() if isinstance(prior, np.ndarray) else prior      # what the estimator gets
   gamma = float(rng.choice([0.25, 1.0, 4.0, 64.0]))       # the stated quantifier is gamma in (0, inf)
   mode = str(rng.choice(['converged', 'few_iterations', 'prior_feasible']))
   max_iter = int(rng.integers(1, 6)) if mode == 'few_iterations' else 3000
@@ -76,11 +77,11 @@ def gen_case(rng, supervised):
     warnings.simplefilter('ignore')
     try:
       if supervised:
-        est = gen.ITML_Supervised(gamma=gamma, max_iter=max_iter, tol=tol, prior=prior, n_constraints=n_c, random_state=seed)
-        cap = run_with_frame(lambda: est.fit(X, y, bounds=bounds))
+        est = gen.ITML_Supervised(gamma=gamma, max_iter=max_iter, tol=tol, prior=prior_arg, n_constraints=n_c, random_state=seed)
+        cap = run_with_frame(lambda: est.fit(X.copy(), y.copy(), bounds=None if bounds is None else bounds.copy()))
       else:
-        est = gen.ITML(gamma=gamma, max_iter=max_iter, tol=tol, prior=prior, random_state=seed)
-        cap = run_with_frame(lambda: est.fit(pairs, lab, bounds=bounds))
+        est = gen.ITML(gamma=gamma, max_iter=max_iter, tol=tol, prior=prior_arg, random_state=seed)
+        cap = run_with_frame(lambda: est.fit(pairs.copy(), lab.copy(), bounds=None if bounds is None else bounds.copy()))
       L = np.asarray(est.components_)
       M = L.T.dot(L)
       M0 = _initialize_metric_mahalanobis(pairs, prior, seed, strict_pd=True, matrix_name='prior')
